@@ -228,7 +228,7 @@ PLAN["C13"] = {
     "level_note": "Trusted: Kani/CBMC, rustc. Soes triples are bounded in the number of terms and variables (stated per harness); implies_lut bounded n <= 4. Display is property C16 (not applicable).",
     "kani_units": ["spec_ops.rs", "c13_ecube.rs", "c13_soes.rs"],
     "kani_filters": {"quick": ["c13q_"], "thorough": ["c13t_"]},
-    "kani_scope": {r"soes_\w+_k(\d)": "bounded(Soes: number of terms and variables fixed per harness, <= 4 terms, n <= 4)", r"implies_lut_n(\d)": "bounded(n <= 4: one harness per n)",
+    "kani_scope": {r"soes_lut_k\d_n[78]": "bounded(Soes -> Lut: one or two arbitrary terms over 7 / 8 variables - multi-word tables)", r"soes_\w+_k(\d)": "bounded(Soes: number of terms and variables fixed per harness, <= 4 terms, n <= 5)", r"implies_lut_n(\d)": "bounded(n <= 4: one harness per n)",
                    r"from_vars": "bounded(<= 3 listed variables)", r".*": "complete(all 32 variables; loop-free)"},
     "ground": {"units": ["g13_ecube_all.rs"], "quick": ["g13q_"], "thorough": ["g13t_"]},
     "functions": ["Ecube::value", "Ecube::one", "Ecube::zero", "Ecube::is_zero", "Ecube::is_one", "Ecube::nth_var", "Ecube::nth_var_inv", "Ecube::from_vars",
@@ -236,7 +236,7 @@ PLAN["C13"] = {
                   "Soes::value", "Soes::or + BitOr (4 impls)", "Soes::zero/one/nth_var/nth_var_inv", "Soes::is_zero", "Soes::is_one", "From<&Soes> for Lut"],
     "assumptions": [
         "precondition derived from the code: variable index < 32 for nth_var/nth_var_inv/from_vars",
-        "Soes: bounded to <= 4 terms over <= 4 variables; terms are built directly in an appended child module (from_cubes' scan is not exercised)",
+        "Soes: bounded to <= 4 terms over <= 4 (5) variables, plus the conversion to Lut with one or two terms over 7 and 8 variables (multi-word tables); terms are built directly in an appended child module (from_cubes' scan is not exercised)",
         "derived PartialEq on Ecube/Soes is structural (trusted)",
     ],
     "scope_note": "Ecube loop-free methods: complete over 32 variables. Soes: bounded (<= 4 terms, n <= 4). Ecube::all exhaustive n <= 5.",
@@ -363,7 +363,7 @@ PLAN["C15"] = {
     "harness_timeout": {"quick": 900, "thorough": 3600},
     "functions": ["From<&Lut> for Esop", "From<&Esop> for Lut", "Esop::value", "Esop::xor + BitXor (4 impls)", "Not for Esop (2 impls)", "Esop::is_zero", "Esop::is_one", "Esop::zero/one/nth_var/nth_var_inv"],
     "assumptions": [
-        "bounds: conversion n <= 2 (quick), 3 (thorough); operators with exactly K cubes, K <= 3 (quick), 5 (thorough), n <= 4",
+        "bounds: conversion of every function n <= 2 (quick), 3 (thorough), and of the positive monomials at n = 7 (two-word tables; 48 of the 128 in quick, all in thorough); operators with exactly K cubes, K <= 3 (quick), 5 (thorough), n <= 4",
         "equal functions give equal Esops: follows from the coefficient-exact form (cube order = increasing variable-set index, by the sweep order) for the sizes covered",
         "derived PartialEq on Cube is structural (trusted); cube semantics: C12",
     ],
